@@ -13,7 +13,7 @@ REQUIRED = ["lower <= true mGH (exact oracle)", "true mGH <= upper (exact oracle
             "upper == 1/2 max over directions of the best sampled map", "lower <= 1/2 max distortion of independent maps"]
 RULE = ("pairs of connected graphs from paths, cycles, stars, spiders, caterpillars, random trees, lollipops, barbells, grids, complete, "
         "complete bipartite and connected G(n,p), randomly relabelled: n<=8 (quick) / 9 (thorough) with the exact oracle (min "
-        "distortion by backtracking, both directions), n<=40 with witness clauses, a few 128-160 vertex pairs (int8/int16 boundary). "
+        "distortion by backtracking, both directions), n<=40 with witness clauses, 128-160 vertex pairs across the int8/int16 boundary: sparse vs sparse (witness clauses) and dense, twin-rich graphs (complete, complete bipartite, star, lollipop, G(n,.5)) vs graphs of <=6 vertices, for which the exact oracle applies after an exact twin reduction. "
         "Every pair is run under several NumPy RNG states and under substituted draws (identity / reversed / rotated permutations; "
         "first / last / constant choice) and with mapping_sample_size_order in {[.5,1],[0,0],[1,1],[0,3],[2,0],[-1,-1]}. non-trivial = "
         "both graphs >=4 vertices, different distance matrices up to relabelling signature, max diameter >=3; distinct = digest of "
@@ -154,8 +154,10 @@ def run_case(ctx, k, rng):
         mode = "exact"
     elif r < 0.80:
         mode = "iso"
-    elif r < 0.985:
+    elif r < 0.93:
         mode = "witness"
+    elif r < 0.985:
+        mode = "bigdense"
     else:
         mode = "big"
     if mode == "exact":
@@ -173,15 +175,32 @@ def run_case(ctx, k, rng):
                 B = A.copy()
             fb = fa + "~"
     else:
+        # modes "big" (sparse, slow) and "bigdense" (dense, small diameter): sizes across the int8 boundary of the distance / frequency tables, sparse and dense, against big and small partners
         n1, n2 = int(rng.integers(128, 150)), int(rng.integers(120, 161))
-        A = OM.path(n1) if rng.random() < 0.5 else OM.gnp_connected(rng, n1, 0.05)
-        B = OM.cycle(n2) if rng.random() < 0.5 else OM.random_tree(rng, n2)
-        fa, fb = "big", "big"
+        fa = str(rng.choice(["complete", "bipartite", "star", "gnp.5", "lollipop"] if mode == "bigdense" else ["path", "gnp.05"]))
+        A = {"path": lambda: OM.path(n1), "gnp.05": lambda: OM.gnp_connected(rng, n1, 0.05), "complete": lambda: OM.complete(n1),
+             "bipartite": lambda: OM.complete_bipartite(int(rng.integers(1, 6)), n1), "star": lambda: OM.star(n1 + 1),
+             "gnp.5": lambda: OM.gnp_connected(rng, n1, 0.5), "lollipop": lambda: OM.lollipop(n1, int(rng.integers(1, 6)))}[fa]()
+        if fa in ("path", "gnp.05") or rng.random() < 0.3:
+            B = OM.cycle(n2) if rng.random() < 0.5 else OM.random_tree(rng, n2)
+            fb = "big"
+        else:
+            # small partner (the exact oracle applies after twin reduction), biased towards graphs with three or more
+            # mutually distant vertices - the curvature test of the lower bound only engages on those
+            nb = int(rng.integers(3, 7))
+            fb = str(rng.choice(["star", "path", "cycle", "bipartite", "spider", "tree", "any"]))
+            B = {"star": lambda: OM.star(nb), "path": lambda: OM.path(nb), "cycle": lambda: OM.cycle(nb),
+                 "bipartite": lambda: OM.complete_bipartite(1 + int(rng.integers(0, 2)), nb - 1),
+                 "spider": lambda: OM.spider([1, 1, 2][: max(2, nb - 3)] + [1]), "tree": lambda: OM.random_tree(rng, nb),
+                 "any": lambda: OM.random_connected(rng, 6, 2)[0]}[fb]()
+            if len(B) > 6:
+                B = OM.star(5)
+        fa = "big:" + fa
     A, _ = OM.relabel(rng, A); B, _ = OM.relabel(rng, B)
     msoi = int(rng.integers(0, len(MSO))) if rng.random() < 0.6 else 0
     if max(len(A), len(B)) > 20 and msoi in (3, 4):
         msoi = 2 if max(len(A), len(B)) <= 40 else 0
-    if mode == "big":
+    if mode in ("big", "bigdense"):
         msoi = 5
     mso = MSO[msoi]
     ctx.begin(k, mode, {"A": A, "B": B, "mapping_sample_size_order": mso, "families": [fa, fb]})
@@ -196,8 +215,17 @@ def run_case(ctx, k, rng):
             true2 = OM.mgh_exact_doubled(DX, DY, timeout=20.0)
         except OM.OracleTimeout:
             ctx.note("oracle_timeout")
+    elif mode == "bigdense" and len(B) <= 6:
+        # exact distance for a 128+ vertex graph with few twin classes against a small graph (see oracles/mgh.twin_reduce)
+        DXr, ncls = OM.twin_reduce(DX, len(B) + 1)
+        if len(DXr) <= 16:
+            try:
+                true2 = OM.mgh_exact_doubled(DXr, DY, timeout=20.0)
+                ctx.note("exact oracle via twin reduction")
+            except OM.OracleTimeout:
+                ctx.note("oracle_timeout_bigdense")
     scheds = [int(rng.integers(0, 2 ** 31)), Schedule(str(rng.choice(["identity", "reversed", "rotated", "first", "last"])), 1)]
-    if mode != "big":
+    if mode not in ("big", "bigdense"):
         scheds.append(int(rng.integers(0, 2 ** 31)) if rng.random() < 0.5 else Schedule("random", int(rng.integers(0, 2 ** 31))))
     lbs = set()
     for s in scheds:
@@ -215,6 +243,7 @@ def run_case(ctx, k, rng):
         lb, ub = res
         lbs.add(lb)
         if true2 is not None:
+            ctx.note("exact-oracle checks:" + mode)
             ctx.check("lower <= true mGH (exact oracle)", lb <= true2 / 2, lower=lb, true=true2 / 2, schedule=sname)
             ctx.check("true mGH <= upper (exact oracle)", true2 / 2 <= ub, upper=ub, true=true2 / 2, schedule=sname)
             if lb < true2 / 2 < ub:
